@@ -14,7 +14,13 @@ CONSTANTS Policies,     \* set of policy records to explore
           MaxNow,       \* bound on the clock (model checking only)
           MaxCalls      \* bound on admitted calls (model checking only)
 
-Results == {"ok", "slow", "fail"}
+(* How a call completed.  The property names success / failure / slow; a completion has two      *)
+(* attributes, though - did it fail, and how long did it take - so a fourth class exists: the     *)
+(* call that failed AND took at least slowCallDurationThreshold ("failslow": a backend time-out    *)
+(* is the typical one).  Such a call is a failure - it counts for the failure rate like any other  *)
+(* failed call; whether it is counted for the slow-call rate as well is left open by the text      *)
+(* (the pinned code does not, resilience4j does), and so by the contract.                           *)
+Results == {"ok", "slow", "fail", "failslow"}
 
 (* policy record: [failT, slowT \in 1..100, wt \in {"count","time"}, wsize, minCalls, permitted,
                    waitOpen, maxWaitHO]  (the two durations in ticks)                           *)
@@ -50,10 +56,26 @@ Pushed(r) ==
     ELSE IF pol.wt = "count" THEN LastN(Append(win, e), pol.wsize)
     ELSE Append(DropWhileOld(win, Sec(now) - pol.wsize), e)
 
-AtOrAbove(w) ==
+Failed(w) == Count(w, "fail") + Count(w, "failslow")
+
+(* a rate is at or above its threshold whichever way failed-and-slow calls are counted for the slow rate *)
+MustOpen(w) ==
+    LET tot == Len(w) IN
+    \/ 100 * Failed(w) >= pol.failT * tot
+    \/ 100 * Count(w, "slow") >= pol.slowT * tot
+
+(* ... for at least one of the two ways *)
+MayOpen(w) ==
+    LET tot == Len(w) IN
+    \/ MustOpen(w)
+    \/ 100 * (Count(w, "slow") + Count(w, "failslow")) >= pol.slowT * tot
+
+(* the rates as they would be if a failed-and-slow call were a slow call only (not a failure): a    *)
+(* reading the text excludes; used to mark the steps on which it shows (`dec`, observation only)    *)
+SlowOnlyReading(w) ==
     LET tot == Len(w) IN
     \/ 100 * Count(w, "fail") >= pol.failT * tot
-    \/ 100 * Count(w, "slow") >= pol.slowT * tot
+    \/ 100 * (Count(w, "slow") + Count(w, "failslow")) >= pol.slowT * tot
 
 Init ==
     /\ pol \in Policies
@@ -117,22 +139,33 @@ RemoveAt(s, i) == SubSeq(s, 1, i - 1) \o SubSeq(s, i + 1, Len(s))
 RecStale(i, r) ==
     /\ i \in 1..Len(pend) /\ pend[i] # epoch
     /\ pend' = RemoveAt(pend, i)
-    /\ last' = [a |-> "rec", i |-> i, r |-> r, st |-> state, stale |-> TRUE]
+    /\ last' = [a |-> "rec", i |-> i, r |-> r, st |-> state, stale |-> TRUE, free |-> FALSE, alt |-> state, dec |-> FALSE]
     /\ UNCHANGED <<pol, state, epoch, transit, win, trials, now, calls>>
 
+(* `free`: the text leaves the outcome of this step open (both successor states are contract steps, *)
+(* `alt` is the other one); `dec`: the step opens the breaker because a failed-and-slow call is a     *)
+(* failure, and would not if it were only slow.                                                        *)
 RecLive(i, r) ==
     /\ i \in 1..Len(pend) /\ pend[i] = epoch
     /\ pend' = RemoveAt(pend, i)
     /\ LET w == Pushed(r)
            minc == IF state = "halfopen" THEN Min(pol.minCalls, pol.permitted) ELSE pol.minCalls
-       IN  IF Len(w) >= minc /\ AtOrAbove(w)
-           THEN /\ state' = "open" /\ epoch' = epoch + 1 /\ transit' = now /\ win' = w
-                /\ UNCHANGED trials
-           ELSE IF Len(w) >= minc /\ state = "halfopen"
-           THEN /\ state' = "closed" /\ epoch' = epoch + 1 /\ transit' = now /\ win' = <<>>
-                /\ UNCHANGED trials
-           ELSE /\ win' = w /\ UNCHANGED <<state, epoch, transit, trials>>
-    /\ last' = [a |-> "rec", i |-> i, r |-> r, st |-> state', stale |-> FALSE]
+           enough == Len(w) >= minc
+           free == enough /\ MayOpen(w) /\ ~MustOpen(w)
+           quiet == IF enough /\ state = "halfopen" THEN "closed" ELSE state     \* the state when it does not open
+       IN  \/ /\ enough /\ MayOpen(w)
+              /\ state' = "open" /\ epoch' = epoch + 1 /\ transit' = now /\ win' = w
+              /\ UNCHANGED trials
+              /\ last' = [a |-> "rec", i |-> i, r |-> r, st |-> "open", stale |-> FALSE, free |-> free,
+                          alt |-> IF free THEN quiet ELSE "open",
+                          dec |-> (r = "failslow" /\ ~free /\ ~SlowOnlyReading(w))]
+           \/ /\ ~(enough /\ MustOpen(w))
+              /\ IF enough /\ state = "halfopen"
+                 THEN /\ state' = "closed" /\ epoch' = epoch + 1 /\ transit' = now /\ win' = <<>>
+                      /\ UNCHANGED trials
+                 ELSE /\ win' = w /\ UNCHANGED <<state, epoch, transit, trials>>
+              /\ last' = [a |-> "rec", i |-> i, r |-> r, st |-> quiet, stale |-> FALSE, free |-> free,
+                          alt |-> IF free THEN "open" ELSE quiet, dec |-> FALSE]
     /\ UNCHANGED <<pol, now, calls>>
 
 Record(i, r) == RecStale(i, r) \/ RecLive(i, r)
@@ -168,12 +201,12 @@ StaleResultsIgnored ==
 (* the breaker opens by a record only with enough calls at or above a threshold *)
 OpensOnlyAtOrAboveThreshold ==
     [][(last'.a = "rec" /\ state # "open" /\ state' = "open") =>
-          (AtOrAbove(win') /\ Len(win') >= (IF state = "halfopen" THEN Min(pol.minCalls, pol.permitted) ELSE pol.minCalls))]_vars
+          (MayOpen(win') /\ Len(win') >= (IF state = "halfopen" THEN Min(pol.minCalls, pol.permitted) ELSE pol.minCalls))]_vars
 
 (* ... and must open when it is *)
 MustOpenAtThreshold ==
     [][(last'.a = "rec" /\ ~last'.stale /\ state' # "open") =>
-          ~(AtOrAbove(win') /\ Len(win') >= pol.minCalls /\ state' = state /\ win' # <<>>)]_vars
+          ~(MustOpen(win') /\ Len(win') >= pol.minCalls /\ state' = state /\ win' # <<>>)]_vars
 
 (* closes only from half-open *)
 ClosesOnlyFromHalfOpen == [][(last'.a # "init" /\ state # "closed" /\ state' = "closed") => state = "halfopen"]_vars
